@@ -126,6 +126,34 @@ def float_opinion(rng, ty, n, u=None, positive=True):
     return (b, uu, float_dist(rng, ty, n, positive))
 
 
+def overfull_dogmatic(rng, ty, n):
+    """A dogmatic opinion on n >= 3 states that the checked constructors accept and whose belief masses, added in index
+    order in the element type, give the float just above 1 (such a sum is common among rounded simplexes of 4 and more
+    states); most of the mass sits on a state of small base rate (b/a up to ~50).  The projection divides by that
+    sum, so every joint projection lies a rounding residue BELOW the product of the beliefs."""
+    for _ in range(1000):
+        w = [rng.unit() * 0.2 for _ in range(n)]
+        j = rng.below(n)
+        w[j] = 1.0 + rng.unit()
+        s = sum(w)
+        b = [num.rnd(ty, x / s) for x in w]
+        for _ in range(8):
+            if fsum(ty, b) > 1.0:
+                break
+            b[j] = num.next_up(ty, b[j], 1)
+        if not (fsum(ty, b) > 1.0 and is_one(ty, fsum(ty, b))):
+            continue
+        k = [1] * n
+        for _ in range(64 - n):
+            i = rng.below(n)
+            if i != j or rng.chance(1, 8):
+                k[i] += 1
+            else:
+                k[(i + 1) % n] += 1
+        return (b, 0.0, [x / 64.0 for x in k])
+    raise RuntimeError("overfull_dogmatic")
+
+
 def sweep_u(ty):
     """uncertainties through 0, tiny, near 1, 1 (all representable)"""
     e = num.FEPS[ty]
